@@ -64,8 +64,10 @@ def handleTransport (op : String) (args : List Sexp) : Option Sexp := do
         (← tr_parseAssoc so) (← tr_parseAssoc si)))
   | "uses_line6", [g, y, x, so, si] =>
       -- the hypothesis of `trso_no_usable_surrogate_iff_id` (Props/C05Usable): does the run find a usable source domain at line 6?
-      pure (tagged "ok" [tr_boolSexp (identifyUsesLine6 dSeparated (← parseGraph g) (← asNats? y) (← asNats? x)
-        (← tr_parseAssoc so) (← tr_parseAssoc si))])
+      -- two answers: the EXACT predicate (`identifyUsesLine6x`: line 4 inspects a later component only if every earlier one
+      -- returned an estimand, as the Python loop does) and the over-approximation `identifyUsesLine6`
+      let G ← parseGraph g; let Y ← asNats? y; let X ← asNats? x; let o ← tr_parseAssoc so; let i ← tr_parseAssoc si
+      pure (tagged "ok" [tr_boolSexp (identifyUsesLine6x dSeparated G Y X o i), tr_boolSexp (identifyUsesLine6 dSeparated G Y X o i)])
   | "nodes_to_transport", [g, z, w] =>
       pure (exceptToSexp ofNats (getNodesToTransport (← parseGraph g) (← asNats? z) (← asNats? w)))
   | "transport_diagram", [g, ns] =>
